@@ -4,6 +4,11 @@ enum: every subset of six bit sizes as a moduli *file* (valid lines plus lines f
 requirement), parsed by the real ModulusPack.read_file/_parse_modulus; every (min, prefer, max)
 request from a boundary grid incl. inverted/out-of-range ones; os.urandom inside paramiko.primes is
 pinned to each byte-pattern class so every outcome of _roll_random is taken.
+
+Dimension "where the request enters the server": besides the direct ModulusPack.get_modulus call, the same
+packs are put behind a stub transport and asked through KexGex.parse_next with a real
+MSG_KEXDH_GEX_REQUEST (min, prefer, max) and a real MSG_KEXDH_GEX_REQUEST_OLD (one size n, which the code
+documents as (1024, n, 8192)); the group in the MSG_KEXDH_GEX_GROUP reply is judged by the same oracle.
 """
 import itertools
 import signal
@@ -13,6 +18,8 @@ import tempfile
 
 from vmc import core
 from paramiko import primes
+from paramiko.kex_gex import KexGex
+from paramiko.message import Message
 from paramiko.ssh_exception import SSHException
 
 PID = "C43"
@@ -29,7 +36,12 @@ META = {
             "queried before this file was read into the same object); all 8^3=512 "
             "(quick) / 15^3=3375 (thorough) (min,prefer,max) requests incl. inverted and out-of-range ones; "
             "os.urandom pinned to 4 (quick) / 7 (thorough) first-byte patterns so _roll_random takes every "
-            "value. Oracle: if an accepted size lies in [min,max] the offered modulus has the smallest in-range "
+            "value.  Dimension 'where the request enters the server' (fresh pack of every file, every urandom "
+            "pattern): KexGex.parse_next on a stub server transport with MSG_KEXDH_GEX_REQUEST for every "
+            "consistent triple min<=prefer<=max of the request grid (120 quick / 680 thorough; for these the "
+            "server's documented adjustments of the triple cannot change the answer) and MSG_KEXDH_GEX_REQUEST_OLD "
+            "for every grid value n, judged as the request (1024, n, 8192); the (g,p) of the GEX_GROUP reply is "
+            "judged like a get_modulus result.  Oracle: if an accepted size lies in [min,max] the offered modulus has the smallest in-range "
             "size >= prefer, else the largest in-range size; the offered (g,p) is an accepted line of the file; "
             "a rejected line's modulus is never offered.",
     "note": "moduli are synthetic odd numbers of the exact bit length (the parser does not test primality); "
@@ -152,8 +164,81 @@ def _on_alarm(signum, frame):
     raise _NoAnswer()
 
 
-def judge(pack, valid, rejected, vsizes, req, first):
-    """One get_modulus call on the real pack.  Returns (result, None) or (result, (key, detail))."""
+class _StubServerTransport:
+    """What KexGex needs from a server-mode Transport while it answers a group-exchange request."""
+    server_mode = True
+
+    def __init__(self, pack):
+        self.pack = pack
+        self.sent = []
+        self.expected = None
+
+    def _get_modulus_pack(self):
+        return self.pack
+
+    def _log(self, *a, **kw):
+        pass
+
+    def _send_message(self, m):
+        self.sent.append(m.asbytes())
+
+    def _expect_packet(self, *ptypes):
+        self.expected = ptypes
+
+
+ENTRIES = {
+    # entry -> (site for the key, message type)
+    "gex-request": ("KexGex._parse_kexdh_gex_request", 34),
+    "gex-request-old": ("KexGex._parse_kexdh_gex_request_old", 30),
+}
+OLD_MIN, OLD_MAX = 1024, 8192        # kex_gex.py: an old-style request for n bits is (1024, n, 8192)
+
+
+class _BadReply(Exception):
+    pass
+
+
+def ask_server(pack, entry, req):
+    """A fresh KexGex on a stub server transport receives the request packet; -> (g, p) of its GEX_GROUP reply."""
+    tr = _StubServerTransport(pack)
+    kex = KexGex(tr)
+    kex.start_kex()
+    ptype = ENTRIES[entry][1]
+    if ptype not in (tr.expected or ()):
+        raise _BadReply("server does not expect message %d after start_kex" % ptype)
+    m = Message()
+    if entry == "gex-request":
+        for v in req:
+            m.add_int(v)
+    else:
+        m.add_int(req[1])
+    m.rewind()
+    kex.parse_next(ptype, m)
+    if len(tr.sent) != 1 or tr.sent[0][:1] != b"\x1f":
+        raise _BadReply("reply is not one MSG_KEXDH_GEX_GROUP: %r" % [x[:8].hex() for x in tr.sent])
+    r = Message(tr.sent[0][1:])
+    p = r.get_mpint()
+    g = r.get_mpint()
+    return g, p
+
+
+def server_requests(reqvals):
+    """[(entry, (min, prefer, max))]: consistent new-style triples and every old-style size."""
+    out = [("gex-request", t) for t in itertools.combinations_with_replacement(reqvals, 3)]
+    out += [("gex-request-old", (OLD_MIN, n, OLD_MAX)) for n in reqvals]
+    return out
+
+
+def judge(pack, valid, rejected, vsizes, req, first, entry=None):
+    """One get_modulus call on the real pack (entry None) or one request packet to a KexGex in front of it.
+    Returns (result, None) or (result, (key, detail))."""
+    res, bad = _judge(pack, valid, rejected, vsizes, req, first, entry)
+    if bad is not None and entry is not None:
+        bad = (bad[0].replace("ModulusPack.get_modulus", ENTRIES[entry][0]), dict(bad[1], server_entry=entry))
+    return res, bad
+
+
+def _judge(pack, valid, rejected, vsizes, req, first, entry):
     mn, pr, mx = req
     RND.arm(first)
     try:
@@ -162,11 +247,16 @@ def judge(pack, valid, rejected, vsizes, req, first):
         signal.signal(signal.SIGVTALRM, _on_alarm)
         signal.setitimer(signal.ITIMER_VIRTUAL, 2.0)
         try:
-            g, p = pack.get_modulus(mn, pr, mx)
+            if entry is None:
+                g, p = pack.get_modulus(mn, pr, mx)
+            else:
+                g, p = ask_server(pack, entry, req)
         finally:
             signal.setitimer(signal.ITIMER_VIRTUAL, 0)
     except _NoAnswer:
         return None, ("never-returns:ModulusPack.get_modulus:" + relation(mn, pr, mx), {"cpu_seconds": 2.0})
+    except _BadReply as e:
+        return None, ("no-group-reply:ModulusPack.get_modulus:" + relation(mn, pr, mx), {"error": str(e)})
     except SSHException as e:
         if not vsizes:
             return "SSHException", None      # nothing acceptable in the file
@@ -291,6 +381,26 @@ def work(item, acc):
                             "file read into the same ModulusPack" % [b for i, b in enumerate(SIZES)
                                                                      if not (vmask >> i) & 1],
                             "request(min,prefer,max)": list(req), "offered_bits": res, "expected_bits": want})
+        if history == "fresh":
+            # the same pack behind the two server entry points; a request whose direct get_modulus call already
+            # failed above is not reported again
+            for entry, req in server_requests(reqvals):
+                want = expected_size(vsizes, *req)
+                if want is not None and len(vsizes) >= 2:
+                    acc.nt(("srv", vmask, variant, entry, req))
+                for first in pats:
+                    acc.ev()
+                    acc.count("server_entry_requests")
+                    res, bad = judge(pack, valid, rejected, vsizes, req, first, entry)
+                    if bad is not None and (req, first) not in failing_fresh:
+                        key, detail = bad
+                        acc.violation(key, {"file_sizes": vsizes, "variant": variant, "pack_history": history,
+                                            "request(min,prefer,max)": list(req),
+                                            "urandom_first_byte": first, **detail},
+                                      {"vmask": vmask, "variant": variant, "req": list(req), "first": first,
+                                       "history": history, "entry": entry})
+                    elif bad is None and res != "SSHException":
+                        offered.add((res, RND.calls))
         acc.cmax("max_urandom_calls_in_one_roll", max([c for _, c in offered] or [0]))
 
 
@@ -301,18 +411,23 @@ def main(tier):
         "subsets of 6 bit sizes x layouts, each with 84 must-reject lines + 6 malformed lines; pack history = what "
         "happened to the ModulusPack object before read_file of this file (fresh object / queried while empty / "
         "complementary-subset file loaded and queried); requests = full cube of the "
-        "boundary grid; every case calls the real get_modulus on the pack parsed by the real read_file; "
+        "boundary grid, plus (fresh pack) the request entering through KexGex.parse_next as MSG_KEXDH_GEX_REQUEST "
+        "(every consistent triple min<=prefer<=max of the grid) or MSG_KEXDH_GEX_REQUEST_OLD (every grid value n = "
+        "request (1024, n, 8192)) on a stub server transport; every case calls the real get_modulus on the pack parsed by the real read_file; "
         "nontrivial = distinct (file, pack history, request) triples in which the file has >=2 accepted sizes and at least one of "
         "them lies in [min,max] (the selection rule has something to decide)",
         ["moduli are synthetic (bit length is all the parser looks at)",
          "group size = actual bit length; valid lines declare it exactly or understated by 1",
          "generator 0 in a line means 2 (paramiko's reading); g is only required to be the line's",
-         "when no accepted size is in [min,max] any accepted group may be offered"])
+         "when no accepted size is in [min,max] any accepted group may be offered",
+         "server entry points: only consistent new-style triples (the server's widening of inconsistent ranges is "
+         "not judged); old-style request for n bits = (1024, n, 8192) as kex_gex.py documents"])
     nvar = 2 if tier == "quick" else 3
     items = [(tier, vmask, v) for vmask in range(64) for v in range(nvar)]
     ck.merge(core.pmap(items, work))
     reqvals, pats = (Q_REQ, Q_PAT) if tier == "quick" else (T_REQ, T_PAT)
-    ck.extra["bound"] = {"sizes": SIZES, "layouts": nvar, "pack_histories": HISTORIES, "request_values": reqvals, "urandom_first_bytes": pats,
+    ck.extra["bound"] = {"sizes": SIZES, "layouts": nvar, "pack_histories": HISTORIES,
+                         "server_entry_requests_per_fresh_pack": len(server_requests(reqvals)), "request_values": reqvals, "urandom_first_bytes": pats,
                          "reject_kinds": [k[0] for k in BAD_KINDS]}
     return ck.finish()
 
@@ -325,7 +440,8 @@ def replay(rec):
     vsizes = sorted({b for b, _ in valid.values()})
     print("accepted sizes in file:", vsizes, " sizes in parsed pack:", sorted(pack.pack))
     req = tuple(r["req"])
-    res, bad = judge(pack, valid, rejected, vsizes, req, r["first"])
+    print("entry:", r.get("entry") or "ModulusPack.get_modulus")
+    res, bad = judge(pack, valid, rejected, vsizes, req, r["first"], r.get("entry"))
     print("request (min, prefer, max) =", req, "-> offered bits:", res, " expected:", expected_size(vsizes, *req))
     print("verdict:", bad or "ok")
     return 1 if bad else 0
